@@ -28,6 +28,7 @@ func c15(c *Ctx) {
 	r.Declines("min-sum arithmetic, key-set agreement of dimensions along the tree, namespace uniqueness as a counting property")
 	c15items(c)
 	c15sums(c)
+	c15values(c)
 
 	entries := map[string]*ssa.Function{}
 	for _, n := range []string{"ValidAddQuota", "ValidUpdateQuota", "ValidDeleteQuota"} {
